@@ -189,7 +189,13 @@ class FormulaTransformer(m.MatcherDecoratableTransformer):
 
         n_to_s = self.name_to_symbol[i]
         while n_to_s is None:
-            i -= 1
+            # An inlined comprehension (Python 3.12+) has no symbol table:
+            # its own variables are local, the other names are looked up
+            # in the table of the enclosing scope
+            if node.value in scope.assignments:
+                return False
+            scope = scope.parent
+            i = next(i for i, v in enumerate(self.scopes) if scope == v)
             n_to_s = self.name_to_symbol[i]
 
         symbol = n_to_s.get(node.value, None)
